@@ -424,6 +424,25 @@ func (p *Program) verifyFuncOnce(key string, opts *UnitOpts, prereg map[string]s
 		}
 		ex.oblige(fmt.Sprintf("%s%s#ensures:%s", shortFn(fn), opts.NameSuffix, lbl), "ensures", g, t, e.Src, ex.clauseWhere(e))
 	}
+	if fr.recovered != nil {
+		// the exit after a recovered panic owes the same postconditions
+		rpost := ex.specEnv(fr, fr.recovered.st, nil)
+		ex.bindResults(rpost, fn.Signature, tupleOf(fr.recovered.res, fn.Signature))
+		for k, v := range fr.params {
+			rpost.vars[k] = v
+		}
+		for i, e := range fc.Ensures {
+			lbl := clauseLabel(e, i)
+			if opts.SkipEnsures[lbl] {
+				continue
+			}
+			t, er := rpost.evalBool(e.Expr)
+			if er != nil {
+				return ex.unit, ex.entered, fmt.Errorf("%s ensures %s (recovered exit): %v", key, lbl, er)
+			}
+			ex.oblige(fmt.Sprintf("%s%s#ensures:%s.after_recover", shortFn(fn), opts.NameSuffix, lbl), "ensures", fr.recovered.guard, t, e.Src, ex.clauseWhere(e))
+		}
+	}
 	var extra []string
 	for l := range opts.ExtraEnsures {
 		extra = append(extra, l)
@@ -531,12 +550,19 @@ func (ex *Exec) frameObligations(fr *frame, fc *FuncContract, g string, s *State
 			if k == "*new" {
 				continue
 			}
-			goal := fmt.Sprintf("(forall ((x!f Int)) (=> (< x!f %s) (= (select %s x!f) (select %s x!f))))", u.get(fr.entry, "next"), u.get(s, k), u.get(fr.entry, k))
+			// objects have references in (0, next); index 0 is nil, which no executing path can write through
+			goal := fmt.Sprintf("(forall ((x!f Int)) (=> (and (< 0 x!f) (< x!f %s)) (= (select %s x!f) (select %s x!f))))", u.get(fr.entry, "next"), u.get(s, k), u.get(fr.entry, k))
 			ex.oblige(fmt.Sprintf("%s%s#frame-new:%s", shortFn(fr.fn), ex.unitSuffix, k), "frame", g, goal, "only objects allocated by this call are written ("+k+")", "")
 			continue
 		}
 		goal := "true"
 		if !allowed[k] && !allowed["*"] {
+			// the static write set over-approximates (a store through a pointer the static analysis cannot
+			// resolve counts as a write to every cell of its type): a key whose term at exit is still the
+			// entry constant was not written on any path that reaches the exit
+			if t, touched := s.vars[k]; !touched || t == smtName(k) {
+				continue
+			}
 			goal = "false"
 		}
 		o := ex.oblige(fmt.Sprintf("%s%s#frame:%s", shortFn(fr.fn), ex.unitSuffix, k), "frame", "true", goal, "modifies clause covers writes to "+k, "")
